@@ -20,7 +20,7 @@ PROPERTY = "C17"
 LEVEL = "model_checking"
 
 # (N, m, how the object is first constructed): "B1" = float lists of box B1; "int" = Python int lists [-1]*N, [1]*N
-CONFIGS = [(1, 10, "B1"), (2, 3, "B1"), (3, 2, "B1"), (5, 2, "B1"), (2, 3, "int"), (5, 11, "B1"), (1, 10, "int"),
+CONFIGS = [(1, 10, "B1"), (2, 3, "B1"), (3, 2, "B1"), (5, 2, "B1"), (2, 3, "int"), (5, 12, "B1"), (1, 10, "int"),
            (2, 10, "B1"), (4, 3, "B1")]
 
 
